@@ -40,6 +40,8 @@ A_KEY = "HMAC key pointer is a valid object even for key_len == 0 (memcpy(dst, N
 
 def quick_tails(B, lenbytes):
     """0, 1, and the padding-boundary residues: last tail with one final block, first with two, B-1"""
+    if lenbytes == 0:		# GOST: no length field in the padded block
+        return [0, 1, B - 2, B - 1]
     return [0, 1, B - lenbytes - 1, B - lenbytes, B - 1]
 
 
@@ -54,6 +56,18 @@ def t_job(name, harness, defs, fn, rounds, tier="quick", timeout=300, extra=None
 
 def u_jobs(tag, a, base, B, lenbytes):
     """U: safety half + content half (one job per entry tail length)."""
+    jobs = _u_jobs(tag, a, base, B, lenbytes)
+    if B == 128:
+        # measured: MiniSat > 900 s per job, CaDiCaL/kissat ~ 7 min: thorough tier only.  The quick
+        # tier covers sha2_update through the 64-byte block size (same code, block size is data).
+        for j in jobs:
+            j["backend"] = "cadical"
+            j["tier"] = "thorough"
+            j["timeout"] = 1800
+    return jobs
+
+
+def _u_jobs(tag, a, base, B, lenbytes):
     jobs = []
     upd, tr = a["update"], a["transform"][:1]
     if a.get("uloops"):
@@ -173,7 +187,29 @@ def c04_jobs():
 
 
 def gost_jobs():
-    return []
+    a = ALGS["gost"]
+    jobs = []
+    jobs.append(dict(name="gost.tables", harness="harness/C04/gost_T.c", mode="plain", defines=["VF_GOST_T", "VF_GOST_TABLES"],
+                     functions=[], cbmc=["--unwind", "260", "--unwinding-assertions"], route="finite", timeout=300,
+                     assumptions=["the expanded table gost3411_2012_Ax[8][256] and the constants C are compared entry by entry with their definition from pi, tau, A (RFC 6986 5.2-5.5); LPS(x) == xor of the per-byte contributions because L is GF(2)-linear and S, P act on bytes"]))
+    tn, t1 = "gost3411_2012_transform_n_generic", "gost3411_2012_transform_1_generic"
+    A_TAB = "specification LPS taken in its table form over the library's expanded table (justified entry by entry by job gost.tables)"
+
+    def T(name, defs, fn, timeout=900, tier="quick"):
+        jobs.append(t_job("gost.T." + name, "harness/C04/gost_T.c", ["VF_GOST_T"] + defs + ["VF_T_FN=" + fn], fn, 64,
+                          tier=tier, timeout=timeout, extra=dict(assumptions=[A_SIMD, A_CVC5, A_TAB])))
+    T("g0", ["VF_T1"], t1)
+    T("g0.dispatch", ["VF_T1"], "gost3411_2012_transform_1")
+    T("gN", [], tn)
+    T("gN.align1", ["VF_ALIGN=1"], tn)
+    T("gN.dispatch", [], "gost3411_2012_transform_n")
+    for r in (2, 3, 4, 5, 6, 7):
+        T("gN.align%d" % r, ["VF_ALIGN=%d" % r], tn, tier="thorough")
+    jobs += u_jobs("gost", a, [a["D"]], 64, 0)
+    for bits in a["variants"]:
+        jobs += if_jobs("gost_%d" % bits, "gost", a, [a["D"], "VF_BITS=%d" % bits], 64)
+    jobs.append(cvt_job("gost", a))
+    return jobs
 
 
 def c07_jobs():
@@ -185,7 +221,7 @@ def c07_jobs():
             B = blk_of(alg, bits)
             tag = alg if bits is None else "%s_%d" % (alg, bits)
             base = [a["D"]] + ([] if bits is None else ["VF_BITS=%d" % bits]) + ["VF_LIBC_BYTELOOP"]
-            uw = ["--unwindset", "memcpy.0:%d,memset.0:%d" % (B + 2, 130), "--unwinding-assertions", "--object-bits", "10"]
+            uw = ["--unwindset", "memcpy.0:%d,memset.0:%d" % (130 if alg == "sha2" else B + 2, 130), "--unwinding-assertions", "--object-bits", "10"]
             stream = [a["init"], a["update"], a["final"]]
             h = a["hpfx"]
 
